@@ -156,20 +156,30 @@ func c10E1(r *core.Run) {
 			if own != "" {
 				cookieHdr = append(cookieHdr, own)
 			}
+			// the client's cookies travel in one Cookie field or (as HTTP/2 front ends and some clients do) in several
+			layout := "one-field"
+			writeCookies := func(w *rawhttp.Builder) {
+				switch {
+				case len(cookieHdr) == 2 && st%3 == 1:
+					layout = "two-fields-session-first"
+					w.Field("Cookie", cookieHdr[0]).Field("Cookie", cookieHdr[1])
+				case len(cookieHdr) == 2 && st%3 == 2:
+					layout = "two-fields-session-last"
+					w.Field("Cookie", cookieHdr[1]).Field("cookie", cookieHdr[0])
+				case len(cookieHdr) > 0:
+					w.Field("Cookie", strings.Join(cookieHdr, "; "))
+				}
+			}
 			var w rawhttp.Builder
 			if shim {
 				body := "ws://ignored.example" + path + "?tok=" + tok
 				w.Line("POST /shim/open HTTP/1.1").Field("Host", host).Field("X-Tok", tok)
-				if len(cookieHdr) > 0 {
-					w.Field("Cookie", strings.Join(cookieHdr, "; "))
-				}
+				writeCookies(&w)
 				w.Field("Content-Length", fmt.Sprint(len(body))).End()
 				w.WriteString(body)
 			} else {
-				w.Line("GET " + path + " HTTP/1.1").Field("Host", host).Field("X-Tok", tok)
-				if len(cookieHdr) > 0 {
-					w.Field("Cookie", strings.Join(cookieHdr, "; "))
-				}
+				w.Line("GET "+path+" HTTP/1.1").Field("Host", host).Field("X-Tok", tok)
+				writeCookies(&w)
 				w.End()
 			}
 			px.Enqueue(tok, w.Bytes(), "")
@@ -179,7 +189,7 @@ func c10E1(r *core.Run) {
 			if shim {
 				kind = "shim-open"
 			}
-			r.Case(fmt.Sprintf("e1|%s|path=%s|own=%v|sets=%d|has-session=%v", kind, path, own != "", len(set), sid != ""))
+			r.Case(fmt.Sprintf("e1|%s|path=%s|own=%v|sets=%d|has-session=%v|cookies=%s", kind, path, own != "", len(set), sid != "", layout))
 			if !ok || up.Resp == nil {
 				r.Inconclusive(fmt.Sprintf("C10 end-to-end step %s: no response uploaded", tok))
 				break
